@@ -201,7 +201,14 @@ class H2Protocol:
             try:
                 self.priority.remove_stream(stream_id)
             except priority.MissingStreamError:
-                pass
+                # The priority tree has scheduled a stream it does
+                # not know (the priority library can keep a removed
+                # stream scheduled after a dependency loop has been
+                # reprioritized). It would do so for ever, so start
+                # again without the dependency information.
+                self.priority = priority.PriorityTree()
+                for buffered_stream_id in self.stream_buffers:
+                    self.priority.insert_stream(buffered_stream_id)
 
     async def handle(self, event: Event) -> None:
         if isinstance(event, RawData):
